@@ -381,3 +381,26 @@ def carbon_contact(rng, x, seq=None, pos=1, parent=None, axial=False):
 
 POLAR_PARENTS = {"LYS": ["NZ"], "ARG": ["NH1", "NH2", "NE"], "SER": ["OG"], "THR": ["OG1"], "TYR": ["OH"], "ASN": ["ND2"], "GLN": ["NE2"],
                  "HIS": ["ND1", "NE2"], "CYS": ["SG"], "TRP": ["NE1"], "MET": ["CE"], "ILE": ["CD1"], "LEU": ["CD1", "CD2"], "VAL": ["CG1"]}
+
+
+def protonated_with_clashes(rng, seq=None, nwat=3):
+    """a peptide that already carries all its hydrogens (as an NMR model or an earlier pdb2pqr output does) and waters placed
+    just beyond some side-chain hydrogens.  Returns (chains, description)."""
+    seq = seq or [rng.choice(AMINO) for _ in range(rng.randint(3, 6))]
+    full = peptide(seq, hydrogens=True)
+    if rng.random() < 0.5:
+        randomize_sidechains(full, rng)
+    heavy = [a for a in full if not a["name"].startswith("H")]
+    hs = [a for a in full if a["name"].startswith("H") and a["name"] not in ("H", "HA", "HA2", "HA3", "H1", "H2", "H3")]
+    wats = []
+    for w in range(nwat):
+        if not hs:
+            break
+        h = rng.choice(hs)
+        p = min((a for a in heavy if a["res_index"] == h["res_index"]), key=lambda a: np.linalg.norm(a["xyz"] - h["xyz"]))
+        v = h["xyz"] - p["xyz"]
+        v = v / np.linalg.norm(v) + 0.35 * np.array([rng.uniform(-1, 1) for _ in range(3)])
+        q = h["xyz"] + rng.uniform(0.2, 0.9) * v / np.linalg.norm(v)
+        if all(np.linalg.norm(q - a["xyz"]) > 2.2 for a in heavy) and all(np.linalg.norm(q - x[0]["xyz"]) > 2.4 for x in wats):
+            wats.append(water(tuple(q), chain="W", resseq=500 + w))
+    return [full] + wats, f"protonated input {'-'.join(seq)} waters={len(wats)}"
